@@ -494,7 +494,7 @@ pub fn job_json(code: &str, input: &[u8], job: &Job, alloc_mode: u32) -> Obj {
         .b("input_present", job.io.input.is_some())
         .b("output_present", job.io.has_output);
     if let Some(f) = job.io.fault {
-        o = o.n("fault_at", f.at).b("fault_err", f.err);
+        o = o.n("fault_at", f.at).b("fault_err", f.err).n("fault_kind", f.kind as u64).n("fault_once", f.once as u64).s("fault_error_kind", &format!("{:?}", sys::FAULT_KINDS[f.kind as usize % sys::FAULT_KINDS.len()]));
     }
     o
 }
